@@ -133,6 +133,7 @@ typedef struct {
     int      ocsp;           /* the client asks for a stapled OCSP response (status_request) */
     const char *expected_name; /* the client passes this expected server name to matrixSslNewClientSession */
     int      sni_ext;        /* the client builds a server_name extension for "localhost" with the hello-extension API and passes it */
+    int      feed_of_size;   /* every unit is received in two parts: 7 bytes, then the rest into matrixSslGetReadbufOfSize(5000) */
     int      early_data;     /* 1.3 PSK: 1 = credential and server session allow early data; 2 = the credential allows it but the server SESSION disabled it (tls13SessionMaxEarlyData 0) */
     int      resume13;       /* TLS 1.3: world_init first runs a complete connection (server session with early data enabled when early_data != 0) so that the sessions under test resume with its NewSessionTicket */
     int      early_send;     /* the honest client sends one early-data record right after its ClientHello */
